@@ -11,37 +11,6 @@ theorem countP_set_le_of_false (p : Slot → Bool) (l : List Slot) (i : Nat) (v 
     | zero => simp [List.countP_cons, hv]
     | succ i => simp only [List.set_cons_succ, List.countP_cons]; have := ih i; omega
 
-theorem countP_set_le_succ (p : Slot → Bool) (l : List Slot) (i : Nat) (v : Slot) :
-    (l.set i v).countP p ≤ l.countP p + 1 := by
-  induction l generalizing i with
-  | nil => simp
-  | cons a l ih =>
-    cases i with
-    | zero => simp only [List.set_cons_zero, List.countP_cons]; split <;> split <;> omega
-    | succ i => simp only [List.set_cons_succ, List.countP_cons]; have := ih i; omega
-
-theorem liveCount_setSlots_ne (h : Nat) (v : Slot) (hv : v ≠ Slot.live h) (os : List Nat) (s : List Slot) :
-    liveCount h (setSlots v os s) ≤ liveCount h s := by
-  induction os generalizing s with
-  | nil => simp [setSlots]
-  | cons o os ih =>
-    have : setSlots v (o :: os) s = setSlots v os (s.set o v) := rfl
-    rw [this]
-    refine Nat.le_trans (ih _) ?_
-    exact countP_set_le_of_false _ _ _ _ (by simpa using hv)
-
-theorem liveCount_setSlots_le (h : Nat) (v : Slot) (os : List Nat) (s : List Slot) :
-    liveCount h (setSlots v os s) ≤ liveCount h s + os.length := by
-  induction os generalizing s with
-  | nil => simp [setSlots]
-  | cons o os ih =>
-    have : setSlots v (o :: os) s = setSlots v os (s.set o v) := rfl
-    rw [this]
-    have h1 := ih (s.set o v)
-    have h2 := countP_set_le_succ (· == Slot.live h) s o v
-    simp only [liveCount, List.length_cons] at *
-    omega
-
 theorem liveCount_relAux (R : List Nat) (h : Nat) (i : Nat) (ss : List Slot) :
     liveCount h (relAux R i ss) + relCnt R h i ss = liveCount h ss := by
   induction ss generalizing i with
@@ -52,13 +21,6 @@ theorem liveCount_relAux (R : List Nat) (h : Nat) (i : Nat) (ss : List Slot) :
     simp only [relAux, relCnt, List.countP_cons]
     generalize R.contains i = c
     cases c <;> cases s <;> simp [Slot.isLive] <;> (try split) <;> omega
-
-theorem liveCount_gc {F : List Nat} {b b' : Blk} (h : Nat) (hg : gc F b = some b') :
-    liveCount h b'.slots ≤ liveCount h b.slots := by
-  unfold gc at hg
-  split at hg
-  · injection hg with hg; subst hg; exact liveCount_setSlots_ne h _ (by simp) _ _
-  · cases hg
 
 /-- Sum of the debit entries for handle `h`. -/
 def sumFor (h : Nat) : List (Nat × Nat) → Nat
@@ -80,22 +42,6 @@ theorem liveHandles_nodup : ∀ ss : List Slot, (liveHandles ss).Nodup
       simp only [Bool.and_eq_true, Bool.not_eq_true', List.contains_eq_mem, decide_eq_false_iff_not] at hc
       exact List.nodup_cons.2 ⟨hc.2, liveHandles_nodup ss⟩
     · exact liveHandles_nodup ss
-
-theorem sumFor_map_nodup (h : Nat) (f : Nat → Nat) (p : Nat × Nat → Bool) :
-    ∀ hs : List Nat, hs.Nodup → sumFor h ((hs.map (fun x => (x, f x))).filter p) ≤ (if h ∈ hs then f h else 0)
-  | [], _ => by simp [sumFor]
-  | x :: hs, hn => by
-    have hn' := List.nodup_cons.1 hn
-    have ih := sumFor_map_nodup h f p hs hn'.2
-    simp only [List.map_cons, List.filter_cons]
-    by_cases hx : x = h
-    · subst hx
-      have : x ∉ hs := hn'.1
-      simp only [this, if_false] at ih
-      split <;> simp [sumFor] <;> omega
-    · have hne : (h = x) = False := by simp; exact fun e => hx e.symm
-      split <;> simp [sumFor, hx, hne] <;> split at ih <;> simp_all
-
 
 theorem mem_liveHandles_of_relCnt (R : List Nat) (h : Nat) (hh : h ≠ 0) :
     ∀ (i : Nat) (ss : List Slot), relCnt R h i ss ≠ 0 → h ∈ liveHandles ss
@@ -120,87 +66,6 @@ theorem mem_liveHandles_of_relCnt (R : List Nat) (h : Nat) (hh : h ≠ 0) :
         split
         · exact List.mem_cons_of_mem _ this
         · exact this
-
-/-- One block operation: what the handle `h ≠ 0` gains in live slots plus the debit tokens
-created is covered by what it had plus the credit the operation needs. -/
-theorem applyBOp_count {op : BOp} {b : Blk} {r : BRes} (h : Nat) (hh : h ≠ 0) (ha : applyBOp op b = some r) :
-    liveCount h r.v.slots + sumFor h r.debits ≤ liveCount h b.slots + needFor h r.need := by
-  cases op with
-  | assign h' k rv =>
-    simp only [applyBOp] at ha
-    split at ha
-    · rename_i hc
-      simp only [ge_iff_le, Bool.and_eq_true, decide_eq_true_eq, beq_iff_eq] at hc
-      injection ha with ha; subst ha
-      simp only [autoAssign, sumFor, Nat.add_zero] at hc ⊢
-      by_cases e : h' = h
-      · subst e
-        have := liveCount_setSlots_le h' (Slot.live h') (takeFree rv k b.unalloc).1 b.slots
-        simp [needFor, hh]; omega
-      · have := liveCount_setSlots_ne h (Slot.live h') (by simp [e]) (takeFree rv k b.unalloc).1 b.slots
-        omega
-    · cases ha
-  | assignIP h' o =>
-    simp only [applyBOp] at ha
-    split at ha
-    · rename_i v hv
-      injection ha with ha; subst ha
-      unfold assignIP at hv
-      split at hv
-      · injection hv with hv; subst hv
-        simp only [sumFor, Nat.add_zero, liveCount]
-        by_cases e : h' = h
-        · subst e
-          have := countP_set_le_succ (· == Slot.live h') b.slots o (Slot.live h')
-          simp [needFor, hh]; omega
-        · have := countP_set_le_of_false (· == Slot.live h) b.slots o (Slot.live h') (by simp [e])
-          omega
-      · cases hv
-    · cases ha
-  | release h' ords =>
-    simp only [applyBOp] at ha
-    split at ha
-    · injection ha with ha; subst ha
-      have h1 := liveCount_relAux ords h 0 b.slots
-      have h2 := sumFor_map_nodup h (fun x => relCnt ords x 0 b.slots) (fun p => p.2 != 0) _ (liveHandles_nodup b.slots)
-      simp only [needFor]
-      have : (if h ∈ liveHandles b.slots then relCnt ords h 0 b.slots else 0) ≤ relCnt ords h 0 b.slots := by
-        split <;> omega
-      omega
-    · cases ha
-  | relh h' =>
-    simp only [applyBOp] at ha
-    split at ha
-    · injection ha with ha; subst ha
-      have h1 := liveCount_relAux (ordsOf h' 0 b.slots) h 0 b.slots
-      simp only [sumFor, needFor]
-      by_cases e : h' = h
-      · subst e; simp; omega
-      · simp [e]; omega
-    · cases ha
-  | clearAff => simp only [applyBOp] at ha; injection ha with ha; subst ha; simp [sumFor]
-  | bump => simp only [applyBOp] at ha; injection ha with ha; subst ha; simp [sumFor]
-
-theorem rmw_count {g1 g2 : List Nat} {op : BOp} {v : Blk} {res : BRes} (h : Nat) (hh : h ≠ 0)
-    (hr : rmw g1 op g2 v = some res) :
-    liveCount h res.v.slots + sumFor h res.debits ≤ liveCount h v.slots + needFor h res.need := by
-  unfold rmw at hr
-  split at hr
-  · cases hr
-  · rename_i b1 h1
-    split at hr
-    · cases hr
-    · rename_i r1 h2
-      split at hr
-      · cases hr
-      · rename_i b2 h3
-        injection hr with hr; subst hr
-        have a1 := liveCount_gc h h1
-        have a2 := applyBOp_count h hh h2
-        have a3 := liveCount_gc h h3
-        simp only at *
-        omega
-
 
 theorem credTot_erase (h b : Nat) (c : Cred) : ∀ cs : List Cred, c ∈ cs →
     credTot h b (cs.erase c) + (if c.h = h ∧ c.b = b then c.n else 0) = credTot h b cs
@@ -228,40 +93,10 @@ theorem credTot_addDebits (h b' t b : Nat) (ds : List (Nat × Nat)) (cs : List C
     · have : ¬ (b = b') := fun x => e x.symm
       simp [e, this]
 
-theorem spend_count {t b : Nat} {need : Option (Nat × Nat)} {cs cs' : List Cred} (h b' : Nat)
-    (hs : spend t b need cs = some cs') :
-    credTot h b' cs' + (if b' = b then needFor h need else 0) ≤ credTot h b' cs := by
-  unfold spend at hs
-  split at hs
-  · injection hs with hs; subst hs; simp [needFor]
-  · rename_i h' k
-    split at hs
-    · rename_i c hc
-      injection hs with hs; subst hs
-      have hm := List.mem_of_find?_eq_some hc
-      have hp := List.find?_some hc
-      simp only [Bool.and_eq_true, beq_iff_eq, decide_eq_true_eq] at hp
-      have := credTot_erase h b' c cs hm
-      obtain ⟨⟨⟨h1, h2⟩, h3⟩, h4⟩ := hp
-      simp only [needFor]
-      by_cases e : b' = b
-      · subst e
-        by_cases e2 : h' = h
-        · subst e2; simp [h2, h3] at this ⊢; omega
-        · have : ¬ c.h = h := by rw [h2]; exact e2
-          simp [e2]; simp_all
-      · simp [e]; omega
-    · cases hs
-
 def liveAt (s : St) (b h : Nat) : Nat :=
   match s.blk b with
   | some (_, v) => liveCount h v.slots
   | none => 0
-
-/-- Handle records never under-count: for every real handle `h` and block `b`, the
-count recorded in the handle covers the block's live addresses of `h` plus every
-outstanding (in-flight or abandoned by a crash) token. -/
-def HInv (s : St) : Prop := ∀ h b, h ≠ 0 → liveAt s b h + credTot h b s.creds ≤ hcount s h b
 
 theorem cnt_set (m : List Nat) (b b' x : Nat) (hb : b < m.length) :
     cnt (m.set b x) b' = if b' = b then x else cnt m b' := by
@@ -290,223 +125,249 @@ theorem liveCount_replicate_free (h n : Nat) : liveCount h (List.replicate n Slo
   intro a ha
   rw [List.eq_of_mem_replicate ha]; simp
 
-theorem hinv_applyWrite {s s' : St} {c : Call} (hi : HInv s)
-    (hcur : c.verb = Verb.create → s.curRev c.key = none)
-    (hw : applyWrite s c = some s') : HInv s' := by
-  unfold applyWrite at hw
-  split at hw
-  · -- block create
-    injection hw with hw; subst hw
-    intro h b' hh
-    have := hi h b' hh
-    rename_i b0 a0 n0 _ _ _
-    simp only [liveAt, hcount, upd] at this ⊢
-    by_cases e : b' = b0
-    · subst e; simp [newBlk, liveCount_replicate_free]; omega
-    · simp [e]; exact this
-  · -- block read-modify-write
-    rename_i b g1 op g2 _ _ _
-    split at hw
-    · cases hw
-    · rename_i rv v hb
-      split at hw
-      · cases hw
-      · rename_i res hr
-        split at hw
-        · cases hw
-        · rename_i cs hs
-          injection hw with hw; subst hw
-          intro h b' hh
-          have h0 := hi h b' hh
-          have h1 := rmw_count h hh hr
-          have h2 := spend_count h b' hs
-          have h3 := credTot_addDebits h b' c.t b res.debits cs
-          simp only [liveAt, hcount, upd] at h0 ⊢
-          rw [h3]
-          by_cases e : b' = b
-          · subst e; simp [hb] at h0 ⊢; simp at h2; omega
-          · simp [e] at h2 ⊢; omega
-  · -- block delete
-    rename_i b g1 op g2 _ _ _
-    split at hw
-    · cases hw
-    · rename_i rv v hb
-      split at hw
-      · split at hw
-        · split at hw
-          · injection hw with hw; subst hw
-            intro h b' hh
-            have h0 := hi h b' hh
-            simp only [liveAt, hcount, upd] at h0 ⊢
-            by_cases e : b' = b
-            · subst e; simp [hb] at h0 ⊢; omega
-            · simp [e]; exact h0
-          · cases hw
-        · cases hw
-      · rename_i op'
-        split at hw
-        · cases hw
-        · rename_i res hr
-          split at hw
-          · rename_i hc
-            simp only [Bool.and_eq_true, Option.isNone_iff_eq_none] at hc
-            injection hw with hw; subst hw
-            intro h b' hh
-            have h0 := hi h b' hh
-            have h1 := rmw_count h hh hr
-            have h3 := credTot_addDebits h b' c.t b res.debits s.creds
-            simp only [liveAt, hcount, upd] at h0 ⊢
-            rw [h3]
-            by_cases e : b' = b
-            · subst e; simp [hb, hc.2, needFor] at h0 h1 ⊢; omega
-            · simp [e]; exact h0
-          · cases hw
-  · -- handle create (increment)
-    rename_i h0 b0 n0 hk hv _
-    dsimp only at hw
-    split at hw
-    · rename_i hc
-      simp only [ge_iff_le, Bool.and_eq_true, decide_eq_true_eq] at hc
-      injection hw with hw; subst hw
-      have habs : s.hdl h0 = none := by
-        have := hcur hv
-        rw [hk] at this
-        simp only [St.curRev, Option.map_eq_none_iff] at this
-        exact this
-      intro h b' hh
-      have h1 := hi h b' hh
-      simp only [liveAt, hcount, upd, credTot] at h1 ⊢
-      by_cases e : h = h0
-      · subst e
-        simp [habs] at h1 ⊢
-        rw [cnt_set _ _ _ _ (by simpa using hc.2), cnt_replicate]
-        by_cases e2 : b' = b0
-        · subst e2; simp; omega
-        · have : ¬ b0 = b' := fun x => e2 x.symm
-          simp [e2, this]; omega
-      · have : ¬ h0 = h := fun x => e x.symm
-        simp [e, this]; exact h1
-    · cases hw
-  · -- handle update (increment)
-    rename_i h0 b0 n0 _ _ _
-    split at hw
-    · cases hw
-    · rename_i rv m hm
-      split at hw
-      · rename_i hc
-        simp only [ge_iff_le, Bool.and_eq_true, decide_eq_true_eq] at hc
-        injection hw with hw; subst hw
-        intro h b' hh
-        have h1 := hi h b' hh
-        simp only [liveAt, hcount, upd, credTot] at h1 ⊢
-        by_cases e : h = h0
-        · subst e
-          simp [hm] at h1 ⊢
-          rw [cnt_set _ _ _ _ hc.2]
-          by_cases e2 : b' = b0
-          · subst e2; simp; omega
-          · have : ¬ b0 = b' := fun x => e2 x.symm
-            simp [e2, this]; omega
-        · have : ¬ h0 = h := fun x => e x.symm
-          simp [e, this]; exact h1
-      · cases hw
-  · -- handle update (decrement)
-    rename_i h0 b0 n0 _ _ _
-    split at hw
-    · cases hw
-    · rename_i rv m hm
-      dsimp only at hw
-      split at hw
-      · rename_i hc
-        simp only [Bool.and_eq_true, decide_eq_true_eq, List.contains_eq_mem, Bool.not_eq_true'] at hc
-        injection hw with hw; subst hw
-        intro h b' hh
-        have h1 := hi h b' hh
-        have h2 := credTot_erase h b' { t := c.t, h := h0, b := b0, n := n0 } s.creds (by simpa using hc.1.2)
-        simp only [liveAt, hcount, upd] at h1 ⊢
-        have hlen : b0 < m.length := hc.1.1.2
-        by_cases e : h = h0
-        · subst e
-          simp [hm] at h1 ⊢
-          rw [cnt_set _ _ _ _ hlen]
-          by_cases e2 : b' = b0
-          · subst e2; simp at h2 ⊢; omega
-          · have : ¬ b0 = b' := fun x => e2 x.symm
-            simp [e2, this] at h2 ⊢; omega
-        · have : ¬ h0 = h := fun x => e x.symm
-          simp [e, this] at h2 ⊢; omega
-      · cases hw
-  · -- handle delete (decrement to empty)
-    rename_i h0 b0 n0 _ _ _
-    split at hw
-    · cases hw
-    · rename_i rv m hm
-      dsimp only at hw
-      split at hw
-      · rename_i hc
-        simp only [Bool.and_eq_true, decide_eq_true_eq, List.contains_eq_mem] at hc
-        injection hw with hw; subst hw
-        intro h b' hh
-        have h1 := hi h b' hh
-        have h2 := credTot_erase h b' { t := c.t, h := h0, b := b0, n := n0 } s.creds (by simpa using hc.1.2)
-        simp only [liveAt, hcount, upd] at h1 ⊢
-        have hlen : b0 < m.length := hc.1.1.2
-        have hz := cnt_zero_of_zeroMap hc.2 b'
-        rw [cnt_set _ _ _ _ hlen] at hz
-        by_cases e : h = h0
-        · subst e
-          simp [hm] at h1 ⊢
-          by_cases e2 : b' = b0
-          · subst e2; simp at hz h2; omega
-          · simp [e2] at hz h2; omega
-        · have : ¬ h0 = h := fun x => e x.symm
-          simp [e, this] at h2 ⊢; omega
-      · cases hw
-  all_goals first
-    | (injection hw with hw; subst hw; exact hi)
-    | (cases hw; done)
-
-
 theorem casOutcome_create_ok {cur rev : Option Nat} {f : Fault}
     (h : casOutcome cur Verb.create rev f = Outcome.ok) : cur = none := by
   unfold casOutcome at h
   cases f <;> cases cur <;> simp_all
 
-theorem hinv_init (r nb : Nat) : HInv (St.init r nb) := by
-  intro h b _; simp [liveAt, hcount, St.init, credTot]
 
-theorem hinv_step {s s' : St} {e : Ev} (hi : HInv s) (h : step s e = some s') : HInv s' := by
-  cases e with
-  | tick => simp only [step] at h; injection h with h; subst h; exact hi
-  | «begin» t => simp only [step] at h; injection h with h; subst h; exact hi
-  | endOp t a =>
-    simp only [step] at h
-    split at h
-    · injection h with h; subst h; exact hi
-    · cases h
-  | call c =>
-    simp only [step] at h
-    split at h
-    · rename_i ho
-      split at h
-      · split at h
-        · refine hinv_applyWrite hi ?_ h
-          intro hv
-          rw [hv] at ho
-          exact casOutcome_create_ok ho
-        · cases h
-      · injection h with h; subst h; exact hi
-    · injection h with h; subst h; exact hi
+/-- Overwriting a position whose value does not satisfy `p` changes the count by [p v]. -/
+theorem countP_set_eq (p : Slot → Bool) (l : List Slot) (i : Nat) (v x : Slot)
+    (hx : l[i]? = some x) (hp : p x = false) :
+    (l.set i v).countP p = l.countP p + (if p v then 1 else 0) := by
+  induction l generalizing i with
+  | nil => simp at hx
+  | cons a l ih =>
+    cases i with
+    | zero =>
+      simp only [List.getElem?_cons_zero, Option.some.injEq] at hx
+      subst hx
+      simp [List.countP_cons, hp]
+    | succ i =>
+      simp only [List.getElem?_cons_succ] at hx
+      simp only [List.set_cons_succ, List.countP_cons]
+      rw [ih i hx]; omega
 
-theorem hinv_run {s s' : St} {evs : List Ev} (hi : HInv s) (h : run s evs = some s') : HInv s' := by
-  induction evs generalizing s with
-  | nil => simp only [run] at h; injection h with h; subst h; exact hi
-  | cons e es ih =>
-    simp only [run] at h
-    split at h
-    · rename_i s1 h1; exact ih (hinv_step hi h1) h
-    · cases h
+theorem countP_set_none (p : Slot → Bool) (l : List Slot) (i : Nat) (v : Slot) (hx : l[i]? = none) :
+    (l.set i v).countP p = l.countP p := by
+  have : l.length ≤ i := by simpa using hx
+  rw [List.set_eq_of_length_le this]
 
+/-- Setting positions that do not hold `live h` to a value that is not `live h` keeps the count. -/
+theorem liveCount_setSlots_same (h : Nat) (v : Slot) (hv : v ≠ Slot.live h) :
+    ∀ (os : List Nat) (s : List Slot), (∀ o ∈ os, s[o]? ≠ some (Slot.live h)) →
+      liveCount h (setSlots v os s) = liveCount h s
+  | [], s, _ => by simp [setSlots]
+  | o :: os, s, hs => by
+    have e : setSlots v (o :: os) s = setSlots v os (s.set o v) := rfl
+    rw [e, liveCount_setSlots_same h v hv os (s.set o v)]
+    · unfold liveCount
+      cases hx : s[o]? with
+      | none => exact countP_set_none _ _ _ _ hx
+      | some x =>
+        have hne : x ≠ Slot.live h := by intro e; apply hs o (List.mem_cons_self ..); rw [hx, e]
+        rw [countP_set_eq _ _ _ _ x hx (by simpa using hne)]
+        simp [hv]
+    · intro o' ho'
+      simp only [List.getElem?_set]
+      have := hs o' (List.mem_cons_of_mem _ ho')
+      split
+      · split
+        · intro e; injection e with e; exact hv e
+        · simp
+      · exact this
+
+/-- Setting duplicate-free FREE positions to `live h` adds exactly their number for `h`
+and nothing for other handles. -/
+theorem liveCount_setSlots_free (h h' : Nat) :
+    ∀ (os : List Nat) (s : List Slot), os.Nodup → (∀ o ∈ os, s[o]? = some Slot.free) →
+      liveCount h' (setSlots (Slot.live h) os s) = liveCount h' s + (if h' = h then os.length else 0)
+  | [], s, _, _ => by simp [setSlots]
+  | o :: os, s, hn, hs => by
+    have e : setSlots (Slot.live h) (o :: os) s = setSlots (Slot.live h) os (s.set o (Slot.live h)) := rfl
+    have hn' := List.nodup_cons.1 hn
+    rw [e, liveCount_setSlots_free h h' os _ hn'.2]
+    · unfold liveCount
+      rw [countP_set_eq _ _ _ _ Slot.free (hs o (List.mem_cons_self ..)) (by simp)]
+      by_cases e2 : h' = h
+      · subst e2; simp; omega
+      · have : ¬ h = h' := fun x => e2 x.symm
+        simp [e2, this]
+    · intro o' ho'
+      have hne : o ≠ o' := fun e => hn'.1 (e ▸ ho')
+      simp only [List.getElem?_set, hne, if_false]
+      exact hs o' (List.mem_cons_of_mem _ ho')
+
+theorem liveCount_gc_eq {F : List Nat} {b b' : Blk} (h : Nat) (hg : gc F b = some b') :
+    liveCount h b'.slots = liveCount h b.slots := by
+  unfold gc at hg
+  split at hg
+  · rename_i hc
+    simp only [Bool.and_eq_true, List.all_eq_true, beq_iff_eq] at hc
+    injection hg with hg; subst hg
+    apply liveCount_setSlots_same h _ (by simp)
+    intro o ho hl
+    have := hc.2 o ho
+    rw [hl] at this; cases this
+  · cases hg
+
+theorem liveCount_relhAux (h h' : Nat) (ss : List Slot) :
+    liveCount h' (relhAux h ss) = if h' = h then 0 else liveCount h' ss := by
+  unfold liveCount relhAux
+  induction ss with
+  | nil => simp
+  | cons s ss ih =>
+    simp only [List.map_cons, List.countP_cons, ih]
+    by_cases e : h' = h
+    · subst e; simp; cases s <;> simp; split <;> simp_all
+    · simp only [e, if_false]
+      cases s <;> simp
+      rename_i x
+      by_cases e2 : x = h
+      · subst e2; simp; exact fun e3 => absurd e3.symm e
+      · simp [e2]
+
+theorem liveCount_empty {b : Blk} (he : b.empty = true) (h : Nat) : liveCount h b.slots = 0 := by
+  unfold Blk.empty at he
+  simp only [List.all_eq_true, beq_iff_eq] at he
+  unfold liveCount
+  rw [List.countP_eq_zero]
+  intro a ha
+  rw [he a ha]; simp
+
+
+theorem sumFor_map_nodup_eq (h : Nat) (f : Nat → Nat) :
+    ∀ hs : List Nat, hs.Nodup →
+      sumFor h ((hs.map (fun x => (x, f x))).filter (fun p => p.2 != 0)) = (if h ∈ hs then f h else 0)
+  | [], _ => by simp [sumFor]
+  | x :: hs, hn => by
+    have hn' := List.nodup_cons.1 hn
+    have ih := sumFor_map_nodup_eq h f hs hn'.2
+    simp only [List.map_cons, List.filter_cons]
+    by_cases hx : x = h
+    · subst hx
+      have : x ∉ hs := hn'.1
+      simp only [this, if_false] at ih
+      by_cases hz : f x = 0
+      · simp [hz, ih]
+      · simp [hz, sumFor, ih]
+    · have hne : ¬ h = x := fun e => hx e.symm
+      split
+      · simp [sumFor, hx, hne, ih]
+      · simp [hne, ih]
+
+theorem applyBOp_count_eq {op : BOp} {b : Blk} {r : BRes} (hw : WF b) (h : Nat) (hh : h ≠ 0)
+    (ha : applyBOp op b = some r) :
+    liveCount h r.v.slots + sumFor h r.debits = liveCount h b.slots + needFor h r.need := by
+  cases op with
+  | assign h' k rv =>
+    simp only [applyBOp] at ha
+    split at ha
+    · rename_i hc
+      simp only [ge_iff_le, Bool.and_eq_true, decide_eq_true_eq, beq_iff_eq] at hc
+      injection ha with ha; subst ha
+      simp only [autoAssign, sumFor, Nat.add_zero] at hc ⊢
+      have hnd := takeFree_nodup rv k b.unalloc hw.1
+      have hfree : ∀ o ∈ (takeFree rv k b.unalloc).1, b.slots[o]? = some Slot.free :=
+        fun o ho => (hw.2 o).1 ((takeFree_mem rv k b.unalloc o).2 (Or.inl ho))
+      rw [liveCount_setSlots_free h' h _ _ hnd.1 hfree, hc.2]
+      by_cases e : h' = h
+      · subst e; simp [needFor, hh]
+      · have : ¬ h = h' := fun x => e x.symm
+        by_cases e0 : h' = 0 <;> simp [needFor, e, this, e0]
+    · cases ha
+  | assignIP h' o =>
+    simp only [applyBOp] at ha
+    split at ha
+    · rename_i v hv
+      injection ha with ha; subst ha
+      unfold assignIP at hv
+      split at hv
+      · rename_i hc
+        injection hv with hv; subst hv
+        have hc' : b.slots[o]? = some Slot.free := by simpa using hc
+        simp only [sumFor, Nat.add_zero, liveCount]
+        rw [countP_set_eq _ _ _ _ Slot.free hc' (by simp)]
+        by_cases e : h' = h
+        · subst e; simp [needFor, hh]
+        · have : ¬ h = h' := fun x => e x.symm
+          by_cases e0 : h' = 0 <;> simp [needFor, e, this, e0]
+      · cases hv
+    · cases ha
+  | release h' ords =>
+    simp only [applyBOp] at ha
+    split at ha
+    · injection ha with ha; subst ha
+      have h1 := liveCount_relAux ords h 0 b.slots
+      have h2 := sumFor_map_nodup_eq h (fun x => relCnt ords x 0 b.slots) _ (liveHandles_nodup b.slots)
+      simp only [needFor, Nat.add_zero]
+      rw [h2]
+      by_cases hm : h ∈ liveHandles b.slots
+      · simp [hm]; omega
+      · have : relCnt ords h 0 b.slots = 0 := by
+          rcases Nat.eq_zero_or_pos (relCnt ords h 0 b.slots) with hz | hz
+          · exact hz
+          · exact absurd (mem_liveHandles_of_relCnt ords h hh 0 b.slots (by omega)) hm
+        simp [hm]; omega
+    · cases ha
+  | relh h' =>
+    simp only [applyBOp] at ha
+    split at ha
+    · injection ha with ha; subst ha
+      simp only [sumFor, needFor, liveCount_relhAux]
+      by_cases e : h = h'
+      · subst e; simp
+      · have : ¬ h' = h := fun x => e x.symm
+        simp [e, this]
+    · cases ha
+  | clearAff => simp only [applyBOp] at ha; injection ha with ha; subst ha; simp [sumFor, needFor]
+  | bump => simp only [applyBOp] at ha; injection ha with ha; subst ha; simp [sumFor, needFor]
+
+theorem rmw_count_eq {g1 g2 : List Nat} {op : BOp} {v : Blk} {res : BRes} (hw : WF v) (h : Nat) (hh : h ≠ 0)
+    (hr : rmw g1 op g2 v = some res) :
+    liveCount h res.v.slots + sumFor h res.debits = liveCount h v.slots + needFor h res.need := by
+  unfold rmw at hr
+  split at hr
+  · cases hr
+  · rename_i b1 h1
+    split at hr
+    · cases hr
+    · rename_i r1 h2
+      split at hr
+      · cases hr
+      · rename_i b2 h3
+        injection hr with hr; subst hr
+        have a1 := liveCount_gc_eq h h1
+        have a2 := applyBOp_count_eq (wf_gc hw h1) h hh h2
+        have a3 := liveCount_gc_eq h h3
+        simp only at *
+        omega
+
+theorem spend_count_eq {t b : Nat} {need : Option (Nat × Nat)} {cs cs' : List Cred} (h b' : Nat)
+    (hs : spend t b need cs = some cs') :
+    credTot h b' cs' + (if b' = b then needFor h need else 0) = credTot h b' cs := by
+  unfold spend at hs
+  split at hs
+  · injection hs with hs; subst hs; simp [needFor]
+  · rename_i h' k
+    split at hs
+    · rename_i c hc
+      injection hs with hs; subst hs
+      have hm := List.mem_of_find?_eq_some hc
+      have hp := List.find?_some hc
+      simp only [Bool.and_eq_true, beq_iff_eq] at hp
+      have := credTot_erase h b' c cs hm
+      obtain ⟨⟨⟨h1, h2⟩, h3⟩, h4⟩ := hp
+      simp only [needFor]
+      by_cases e : b' = b
+      · subst e
+        by_cases e2 : h' = h
+        · subst e2; simp [h2, h3] at this ⊢; omega
+        · have : ¬ c.h = h := by rw [h2]; exact e2
+          simp [e2]; simp_all
+      · have : ¬ c.b = b' := by rw [h3]; exact fun x => e x.symm
+        simp [e]; simp_all
+    · cases hs
 
 theorem gc_keeps_live {F : List Nat} {b b' : Blk} {o h : Nat} (hg : gc F b = some b')
     (hl : b.slots[o]? = some (Slot.live h)) : b'.slots[o]? = some (Slot.live h) := by
@@ -651,6 +512,7 @@ theorem got_grows_only_by_own_cas {s s' : St} {e : Ev} (hw : AllWF s) (h : step 
                   | (injection h with h; subst h; exact absurd hin hnot)))
       · injection h with h; subst h; exact absurd hin hnot
     · injection h with h; subst h; exact absurd hin hnot
+
 
 
 end CalicoVerif.C19
